@@ -385,6 +385,11 @@ const preludeSMT = `
 (define-fun nilslice () Slice (mk_slice 0 0 0 0))
 ; element position of index i of slice s inside its backing array (a symbol, so that it can serve as a trigger)
 (declare-fun objtype (Int) Int)
+; interior addresses: ia(x, o) is the address of the nested struct at offset o >= 1 of object x
+(declare-fun ia (Int Int) Int)
+(declare-fun iabase (Int) Int)
+(declare-fun iaoff (Int) Int)
+(assert (forall ((x Int) (o Int)) (! (and (= (iabase (ia x o)) x) (= (iaoff (ia x o)) o) (not (= (ia x o) 0))) :pattern ((ia x o)))))
 (declare-fun sidx (Slice Int) Int)
 (assert (forall ((s Slice) (i Int)) (! (= (sidx s i) (+ (s_off s) i)) :pattern ((sidx s i)))))
 (define-fun nilif () Iface (mk_iface 0 0))
